@@ -49,6 +49,9 @@ pub struct LifeCfg {
     /// a consumer the server cancels is also dropped explicitly by its thread (an operation the call-pairing
     /// oracles can see) instead of implicitly at the end of the thread
     pub explicit_drop_after_server_cancel: bool,
+    /// directed: for some server-cancelled consumers the last thing their thread does on the channel before the
+    /// (late) cancel arrives is a publish with an empty body
+    pub empty_publish_before_server_cancel: bool,
 }
 
 #[derive(Clone, Debug)]
@@ -108,6 +111,7 @@ pub fn gen_life(cs: &mut ChoiceStream, lc: &LifeCfg) -> Life {
     let mut chans = Vec::new();
     let mut consumers = Vec::new();
     let mut used_ids: Vec<u16> = Vec::new();
+    let mut late_cancels: Vec<usize> = Vec::new();
     for t in 0..n_threads {
         let thread_no = t + 1;
         let n_chans = 1 + cs.choose("n_chans", 2) as usize;
@@ -158,6 +162,19 @@ pub fn gen_life(cs: &mut ChoiceStream, lc: &LifeCfg) -> Life {
         let tg = gen_thread(cs, &gb, thread_no, n_chans, n_busy, p.min(8192));
         // marks depend on the op index: regenerate names is unnecessary, marks are computed at run time
         ops.extend(tg.ops);
+        // directed (C11): an empty-body publish as the channel's last request before a late server cancel
+        if lc.empty_publish_before_server_cancel {
+            for ci in &my_cons {
+                let c = consumers[*ci].clone();
+                if let ConsumerEnd::ServerCancel { .. } = c.end {
+                    if cs.choose("empty_publish_then_cancel", 3) == 0 {
+                        let slot = chans.iter().find(|x| x.thread == thread_no && x.id == c.ch).unwrap().slot;
+                        ops.push((slot, Op::Publish { exchange: "x.empty".into(), rk: format!("rk.empty.{}", ci), mandatory: false, immediate: false, props: 0, body_len: 0, via_exchange: false }));
+                        late_cancels.push(*ci);
+                    }
+                }
+            }
+        }
         // phase C: client-side endings
         for ci in &my_cons {
             let c = consumers[*ci].clone();
@@ -199,9 +216,12 @@ pub fn gen_life(cs: &mut ChoiceStream, lc: &LifeCfg) -> Life {
     }
     // server-side events
     let t_max_us = 30_000u32;
-    for c in &consumers {
+    for (ci, c) in consumers.iter().enumerate() {
         if let ConsumerEnd::ServerCancel { nowait } = c.end {
-            let at = 1_000 * (50 + cs.choose("srv_cancel_at_us", t_max_us) as u64);
+            let mut at = 1_000 * (50 + cs.choose("srv_cancel_at_us", t_max_us) as u64);
+            if late_cancels.contains(&ci) {
+                at = 1_000 * (t_max_us as u64 + 10_000 + cs.choose("late_cancel_us", 5_000) as u64);
+            }
             broker.script.push((Trigger::AtTime(at), Action::CancelConsumer { ch: c.ch, nth_consumer: c.nth_on_channel, nowait }));
         }
     }
